@@ -1,2 +1,56 @@
-(* placeholder *)
-From Snow Require Import Model.Broker.
+(* C03 — Matches respect NAT compatibility, availability and load order.
+   Over Model/Broker.v (see Properties/C02.v for the reading of [reachable], entries and labels).
+   [eligible n e] = entry e is still in its matching heap and belongs to the pool a client of NAT
+   type n is served from; L_Client n fp o choice is the client's matchSnowflake step. *)
+From Coq Require Import List NArith ZArith Bool.
+From Snow Require Import Model.Broker Proofs.BrokerProofs Proofs.BrokerSteps Proofs.BrokerThms.
+Import ListNotations.
+Open Scope N_scope.
+
+(* In every reachable state every matched pair is NAT compatible: a restricted or unknown client holds
+   an unrestricted proxy; an unrestricted client holds a restricted or unknown proxy. *)
+Theorem C03_nat_compat : forall v br s p e c,
+  reachable v br s -> nth_error (entries s) p = Some e -> e_cl e = Some c ->
+  compat (c_nat c) (e_nat e) = true.
+Proof. exact nat_compat. Qed.
+
+Example C03_compat_table :
+  compat NatRestricted NatUnrestricted = true /\ compat NatUnknown NatUnrestricted = true /\
+  compat NatRestricted NatRestricted = false /\ compat NatRestricted NatUnknown = false /\
+  compat NatUnknown NatUnknown = false /\
+  compat NatUnrestricted NatRestricted = true /\ compat NatUnrestricted NatUnknown = true /\
+  compat NatUnrestricted NatUnrestricted = false.
+Proof. repeat split. Qed.
+
+(* "In the heap" means exactly: registered, not expired, not yet claimed by any client. *)
+Theorem C03_waiting_iff_in_heap : forall v br s p e,
+  reachable v br s -> nth_error (entries s) p = Some e ->
+  (e_inheap e = true <-> e_cl e = None /\ w_unmatched_waiting (e_w e) = true).
+Proof. exact inheap_iff_waiting. Qed.
+
+(* A client (naming a known bridge) is refused exactly when no proxy of its eligible pool is waiting,
+   and then the answer is 'no proxies' and nothing else changes. *)
+Theorem C03_refusal_iff : forall v s n fp o ch s',
+  step v s (L_Client n fp o ch) = Some s' -> lookup fp (bridges s) <> None ->
+  (ch = None <-> forall e, In e (entries s) -> eligible n e = false) /\
+  (ch = None -> done_clients s' = (next_cid s, n, fp, o, CNoProxies) :: done_clients s /\ entries s' = entries s).
+Proof. exact refusal_iff. Qed.
+
+(* The proxy a client is given is waiting, eligible, and has the smallest self-reported client count
+   among all eligible waiting proxies. *)
+Theorem C03_least_loaded : forall v s n fp o p s',
+  step v s (L_Client n fp o (Some p)) = Some s' ->
+  exists e, nth_error (entries s) p = Some e /\ eligible n e = true /\
+    (forall e', In e' (entries s) -> eligible n e' = true -> e_clients e <= e_clients e') /\
+    exists c, nth_error (entries s') p = Some (set_cl (Some c) (set_heap_live false (e_live e) e)) /\
+              c_nat c = n /\ c_fp c = fp /\ c_offer c = o /\ c_pc c = C_Send.
+Proof. exact least_loaded. Qed.
+
+(* non-vacuity: with loads 5 and 2 waiting, the client is given the proxy with load 2 and cannot be given the other *)
+Example C03_example :
+  let s0 := run V1 (init [(7, 9)]) [L_Poll 1 NatUnrestricted 1 5; L_Poll 2 NatUnrestricted 1 2] in
+  (exists s, s0 = Some s /\ step V1 s (L_Client NatRestricted 7 100 (Some 1%nat)) <> None /\
+             step V1 s (L_Client NatRestricted 7 100 (Some 0%nat)) = None /\
+             step V1 s (L_Client NatRestricted 7 100 None) = None /\
+             step V1 s (L_Client NatUnrestricted 7 100 None) <> None).
+Proof. eexists. split; [vm_compute; reflexivity|]. repeat split; vm_compute; congruence. Qed.
